@@ -10,4 +10,5 @@ CONSTANTS
   Direct = FALSE
   MidCrash = FALSE
   Timeouts = FALSE
+  MaxWriteFaults = 0
 PROPERTY HighestMonotone
